@@ -66,20 +66,27 @@ pub struct ShapeGen {
     sseq: u32,
     rng: SplitMix,
     i: u64,
+    /// both endpoints on one address (a host talking to itself; the ports tell the directions apart)
+    pub same_host: bool,
 }
 
 impl ShapeGen {
     pub fn new(shape: Shape, conn: u16, seg: usize, seed: u64) -> Self {
-        ShapeGen { shape, conn, seg, cseq: 1000, sseq: 9000, rng: SplitMix(seed ^ conn as u64), i: 0 }
+        ShapeGen { shape, conn, seg, cseq: 1000, sseq: 9000, rng: SplitMix(seed ^ conn as u64), i: 0, same_host: false }
     }
     fn pkt(&mut self, from_client: bool, flags: u8, payload: Vec<u8>) -> Vec<u8> {
         let c = [10, 1, (self.conn >> 8) as u8, self.conn as u8];
-        let s = [10, 2, 0, 1];
+        let s = if self.same_host { c } else { [10, 2, 0, 1] };
         let (ip, sp, dp, seq) = if from_client { (Ip4 { src: c, dst: s, ..Ip4::default() }, 40000u16, 443u16, &mut self.cseq) } else { (Ip4 { src: s, dst: c, ..Ip4::default() }, 443u16, 40000u16, &mut self.sseq) };
         let opts = encode_opts(&[OptItem::Nop, OptItem::Nop, OptItem::Ts(1_000_000 + self.i as u32 * 3, 1)]);
         let tcp = Tcp { sport: sp, dport: dp, seq: *seq, ack: 1, flags, options: opts, payload: payload.clone(), ..Tcp::default() };
         *seq = seq.wrapping_add(payload.len() as u32 + if flags & fr::SYN != 0 { 1 } else { 0 });
         frame(Link::Ether, &Ip::V4(ip), &tcp)
+    }
+    /// the server's SYN+ACK (the shapes themselves go without one; a pool worker that sees only the server's side of a connection
+    /// opens its flow on this segment)
+    pub fn syn_ack(&mut self) -> Vec<u8> {
+        self.pkt(false, fr::SYN | fr::ACK, vec![])
     }
     fn filler(&mut self, first: u8) -> Vec<u8> {
         let mut v = self.rng.bytes(self.seg);
@@ -465,14 +472,20 @@ pub fn run_pool_memory(ctx: &Ctx) {
     use crate::pool::{run_pool, PoolCfg, PoolKind};
     let per_conn = ctx.tier.pick(24usize, 60);
     // (pool, shape, connections, capacity, workers, batch)
-    let combos: Vec<(PoolKind, Shape, usize, usize, usize, usize)> = vec![
-        (PoolKind::Tls, Shape::HugeDeclaredRecord, 40, 2, 1, 32),
-        (PoolKind::Tls, Shape::HugeDeclaredRecord, 40, 2, 1, 1),
-        (PoolKind::Tls, Shape::HugeDeclaredRecord, 48, 3, 4, 64),
-        // HTTP: a shape outside the recorded finding K-C11-http (the request is reported, the body is not kept)
-        (PoolKind::Http, Shape::RequestThenEndlessBody, 40, 2, 1, 32),
-        (PoolKind::Http, Shape::RequestThenEndlessBody, 48, 3, 4, 8),
-        (PoolKind::Tcp, Shape::TimestampedAcks, 64, 2, 2, 16),
+    // the last element: both endpoints of every connection on one address (a host talking to itself)
+    let combos: Vec<(PoolKind, Shape, usize, usize, usize, usize, bool)> = vec![
+        (PoolKind::Tls, Shape::HugeDeclaredRecord, 40, 2, 1, 32, false),
+        (PoolKind::Tls, Shape::HugeDeclaredRecord, 40, 2, 1, 1, false),
+        (PoolKind::Tls, Shape::HugeDeclaredRecord, 48, 3, 4, 64, false),
+        // HTTP: shapes outside the recorded finding K-C11-http (the message is reported, what follows is not kept)
+        (PoolKind::Http, Shape::RequestThenEndlessBody, 40, 2, 1, 32, false),
+        (PoolKind::Http, Shape::RequestThenEndlessBody, 48, 3, 4, 8, false),
+        // long connections within the capacity, every connection between two ports of ONE address (a host talking to itself): a pool
+        // must not keep more for them than for the same connections between two hosts (reference run, same frame count)
+        (PoolKind::Http, Shape::ExchangeThenEndlessResponse, 2, 2, 3, 8, true),
+        (PoolKind::Http, Shape::ExchangeThenEndlessResponse, 3, 3, 5, 1, true),
+        (PoolKind::Http, Shape::RequestThenEndlessBody, 2, 2, 4, 8, true),
+        (PoolKind::Tcp, Shape::TimestampedAcks, 64, 2, 2, 16, false),
     ];
     ctx.run_indexed(
         "pool-memory-per-worker",
@@ -480,20 +493,24 @@ pub fn run_pool_memory(ctx: &Ctx) {
         true,
         1,
         |_i, st| {
-            for (kind, shape, conns, cap, workers, batch) in combos.iter().copied() {
+            for (kind, shape, conns, cap, workers, batch, same_host) in combos.iter().copied() {
                 st.evals += 1;
-                st.nontrivial(&(format!("{:?}", kind), shape, conns, cap, workers, batch));
+                st.nontrivial(&(format!("{:?}", kind), shape, conns, cap, workers, batch, same_host));
                 // two runs: as many connections as one worker may hold (fixed costs of the pool: processors, tables, channels), then many more
-                let measure_pool = |n_conn: usize| -> Result<Option<i64>, String> {
-                    let mut gens: Vec<ShapeGen> = (0..n_conn).map(|c| ShapeGen::new(shape, c as u16, 1400, ctx.seed)).collect();
+                let long = conns == cap;
+                let measure_pool = |n_conn: usize, per_conn: usize, same_host: bool| -> Result<Option<i64>, String> {
+                    let mut gens: Vec<ShapeGen> = (0..n_conn).map(|c| { let mut g = ShapeGen::new(shape, c as u16, 1400, ctx.seed); g.same_host = same_host; g }).collect();
                     let mut frames: Vec<Vec<u8>> = vec![];
-                    for _ in 0..per_conn {
+                    for round in 0..per_conn {
                         for g in gens.iter_mut() {
                             frames.push(g.next());
+                            if long && round == 0 {
+                                frames.push(g.syn_ack());
+                            }
                         }
                     }
                     // the same queue size in both runs (a bounded channel may pre-allocate its slots)
-                    let cfg = PoolCfg { workers, queue: conns * per_conn + 16, batch, timeout_ms: 5, dispatchers: 1, perturb: None, max_sleep_us: 0, max_conn: cap };
+                    let cfg = PoolCfg { workers, queue: conns * per_conn * if long { 25 } else { 1 } + 16, batch, timeout_ms: 5, dispatchers: 1, perturb: None, max_sleep_us: 0, max_conn: cap };
                     let _ = crate::props::c15::arc_db();
                     crate::alloc::global_enable(true);
                     let base = crate::alloc::global_live();
@@ -505,7 +522,7 @@ pub fn run_pool_memory(ctx: &Ctx) {
                     }
                     Ok(Some(run.live_at_quiescence.unwrap_or(base) - base))
                 };
-                let (few, many) = match (measure_pool(cap), measure_pool(conns)) {
+                let (few, many) = match (if long { measure_pool(conns, per_conn * 25, false) } else { measure_pool(cap, per_conn, false) }, measure_pool(conns, if long { per_conn * 25 } else { per_conn }, same_host)) {
                     (Ok(Some(a)), Ok(Some(b))) => (a, b),
                     (Err(e), _) | (_, Err(e)) => {
                         st.fail(Fail::new("pool:new", e), json!({}));
@@ -516,8 +533,8 @@ pub fn run_pool_memory(ctx: &Ctx) {
                         continue;
                     }
                 };
-                let bound = few + (workers * cap) as i64 * 96 * 1024 + 128 * 1024;
-                let detail = format!("{:?} pool, {workers} worker(s), capacity {cap}, batch {batch}, segments of 1400 bytes x {per_conn} per connection: {few} bytes retained with {cap} connections, {many} with {conns} (bound {bound})", kind);
+                let bound = if long { few + 256 * 1024 } else { few + (workers * cap) as i64 * 96 * 1024 + 128 * 1024 };
+                let detail = format!("{:?} pool{}, {workers} worker(s), capacity {cap}, batch {batch}, segments of 1400 bytes x {per_conn} per connection: {few} bytes retained with {cap} connections, {many} with {conns}{} (bound {bound})", kind, if same_host { " (every connection between two ports of one address)" } else { "" }, if long { " carrying 25 x the segments; the first figure is the same run between two hosts" } else { "" });
                 st.sample(|| json!({"measured": detail}));
                 if many > bound {
                     st.fail(Fail::new(format!("{:?}-pool:{:?}:retained-memory-exceeds-per-worker-capacity", kind, shape), detail), json!({"capacity": cap, "workers": workers, "batch": batch}));
